@@ -40,7 +40,6 @@ def _key64(key) -> int:
 def work(prop: str, tier: str, seed: int, lo: int, hi: int, stream: str = "") -> dict:
     env.setup()
     mod = load_check(prop)
-    faulthandler.dump_traceback_later(WORKER_WATCHDOG_S, exit=True)
     t0 = time.monotonic()
     out = {
         "lo": lo,
@@ -61,6 +60,8 @@ def work(prop: str, tier: str, seed: int, lo: int, hi: int, stream: str = "") ->
         for index in range(lo, hi):
             rng = prng.rng_for(seed, mod.PROP, tier, index, stream)
             for sc in mod.gen(rng, tier, index):
+                # wall-clock backstop per evaluation (hangs inside C code); re-armed for every evaluation
+                faulthandler.dump_traceback_later(WORKER_WATCHDOG_S, exit=True)
                 res = mod.execute(sc)
                 out["evals"] += 1
                 chain.update(res.get("digest", "").encode())
@@ -124,7 +125,7 @@ def batch(prop: str, tier: str, seed: int, runs: int, chunk: int, workers: int, 
                         running[ex.submit(work, prop, tier, seed, lo, hi, stream)] = lo
                     if not running:
                         break
-                    done, _ = cf.wait(list(running), timeout=WORKER_WATCHDOG_S + 60, return_when=cf.FIRST_COMPLETED)
+                    done, _ = cf.wait(list(running), timeout=6 * WORKER_WATCHDOG_S, return_when=cf.FIRST_COMPLETED)
                     if not done:
                         raise env.HarnessError("no worker finished within the watchdog period")
                     for fut in done:
